@@ -1,6 +1,7 @@
 import Driver.Sexp
 import Pcore.Model.Object
 import Pcore.Model.ObjectSchema
+import Pcore.Model.ObjectInitHash
 import Pcore.Generated.ObjectSchema
 /-! Driver op for C17:  `obj (D0 D1 …) (A0 A1 …)`  (syntax in harness/c17/c17.go). -/
 namespace C17
@@ -234,6 +235,18 @@ def runActs (env : List OType) : List (Option Obj) → List Action → List Stri
       | some ob, some ty => boolStr (isInstance ty ob)
       | _, _ => "noobj") :: runActs env objs as
 
+/-- the definitions the accepted types print as (`objectType.InitHash()`), in order -/
+def reDefs : List Def → List OType → List Def
+  | d :: ds, (l :: _) :: ts => typeDef d.parent l :: reDefs ds ts
+  | _, _ => []
+
+/-- third rendering: every type re-created from its own InitHash(); `same` when every re-definition is accepted and the
+    actions yield the same observations -/
+def reinit (defs : List Def) (env : List OType) (acts : List Action) (obs : List String) : String :=
+  match runDefs [] (reDefs defs env) with
+  | (_, some env') => if runActs env' [] acts == obs then "reinit same" else "reinit differs"
+  | (rs, none) => "reinit " ++ " ".intercalate rs
+
 def exec : List Sexp → String
   | [.atom "obj", .list ds, .list as] =>
     match defsOf 0 ds, as.mapM actionOf with
@@ -243,7 +256,9 @@ def exec : List Sexp → String
       let head := "def " ++ " ".intercalate rs
       match env with
       | none => head
-      | some env => " ; ".intercalate (head :: runActs env [] acts)
+      | some env =>
+        let obs := runActs env [] acts
+        " ; ".intercalate (head :: obs ++ [reinit defs env acts obs])
     | _, _ => "bad-op"
   | _ => "bad-op"
 
